@@ -241,6 +241,8 @@ type e2eCase struct {
 	// GenQ, if set, replaces the fixed query shape by a generated query over the fields k, v (checked against the
 	// same reference evaluator as in C05, but through the real binary, transport and client-chosen table regex)
 	GenQ *gen.Q
+	// Procs: GOMAXPROCS of the dmap process and of the servers (0 = default)
+	Procs int
 }
 
 var lineCounts = []int{0, 1, 50, 100, 101, 250, 1000, 5000}
@@ -314,6 +316,7 @@ func genE2E(t *rapid.T) e2eCase {
 	}
 	c.Load = rapid.SampledFrom([]int{0, 0, 0, 2, 4}).Draw(t, "load")
 	c.Query = rapid.IntRange(0, 2).Draw(t, "query")
+	c.Procs = rapid.SampledFrom([]int{0, 0, 0, 1, 2}).Draw(t, "procs")
 	if c.Groups <= 40 && rapid.IntRange(0, 2).Draw(t, "genq") == 0 {
 		q := gen.MaprQuery(table, false).Draw(t, "generated-query")
 		q.HasIntvl, q.Interval = true, 1
@@ -527,6 +530,9 @@ func runE2EWithin(c e2eCase, deadline time.Duration) lib.Outcome {
 	if c.GenQ != nil {
 		o.Classes = append(o.Classes, "generated-query")
 	}
+	if c.Procs > 0 {
+		o.Classes = append(o.Classes, fmt.Sprintf("GOMAXPROCS=%d", c.Procs))
+	}
 	if c.Load > 0 {
 		o.Classes = append(o.Classes, "cpu-load")
 	}
@@ -547,6 +553,9 @@ func runE2EWithin(c e2eCase, deadline time.Duration) lib.Outcome {
 		tp := filepath.Join(cdir, "trace-client")
 		traces = append(traces, tp)
 		env = append(env, "VHOOK_TRACE="+tp, "VHOOK_SCHED="+sched(totalFiles))
+		if c.Procs > 0 {
+			env = append(env, fmt.Sprintf("GOMAXPROCS=%d", c.Procs))
+		}
 	} else {
 		var addrs []string
 		var mu sync.Mutex
@@ -563,7 +572,7 @@ func runE2EWithin(c e2eCase, deadline time.Duration) lib.Outcome {
 				srv, err := lib.StartServer(lib.ServerOpts{Dir: filepath.Join(cdir, fmt.Sprintf("server%d", s)), Label: fmt.Sprintf("host%d", s),
 					Cfg:   lib.ServerCfg{MaxConcurrentCats: c.Cats, Permissions: perm},
 					Users: map[string][]string{"tester": {userKey.Authorized}},
-					Env:   []string{"VHOOK_TRACE=" + tp, "VHOOK_SCHED=" + sched(len(c.Files[s]))}})
+					Env:   append([]string{"VHOOK_TRACE=" + tp, "VHOOK_SCHED=" + sched(len(c.Files[s]))}, procsEnv(c.Procs)...)})
 				mu.Lock()
 				servers[s], errs[s], traces[s] = srv, err, tp
 				mu.Unlock()
@@ -591,6 +600,7 @@ func runE2EWithin(c e2eCase, deadline time.Duration) lib.Outcome {
 			}
 		}
 		env = append(env, "VHOOK_SCHED="+strings.Join(cs, ";"))
+		env = append(env, procsEnv(c.Procs)...)
 	}
 	var r lib.Result
 	withLoad(c.Load, func() {
@@ -667,6 +677,13 @@ func runE2EWithin(c e2eCase, deadline time.Duration) lib.Outcome {
 	return o
 }
 
+func procsEnv(n int) []string {
+	if n <= 0 {
+		return nil
+	}
+	return []string{fmt.Sprintf("GOMAXPROCS=%d", n)}
+}
+
 func clipS(s string) string {
 	if len(s) > 500 {
 		return s[len(s)-500:]
@@ -685,7 +702,7 @@ func sampleE2E(c e2eCase) interface{} { return c }
 
 func TestC06E2E(t *testing.T) {
 	lib.Run(t, lib.Spec[e2eCase]{Prop: "C06", Check: "e2e",
-		Rule: "real dmap binary, serverless or against 1..8 (thorough: ..24) freshly started server processes; 1..12 (sometimes 99..130) files per server with 0..5000 lines (sometimes 3000..12000 groups for a large result), MaxConcurrentCats in {1,2,8,200}; one glob command or one command per file; 0-2 hook-placed delays (aggregator close/requeue, registration, limiter, merge, command loop) and 0/2/4 CPU hogs per shard; 3 fixed query shapes or a grammar-generated query (select/where/set/group/order/limit as in C05). Oracle: exit 0 within 120 s and the CSV outfile equals the central evaluation by the reference model over all lines of all files. clean-schedule-space: hook await actions remove the known defect (server cannot know that more files / commands follow), every failure is a violation; free-schedule-space: a failure is accepted only when the hook trace shows that defect's signature. Non-trivial = >=2 files on a server or >=2 servers",
+		Rule: "real dmap binary, serverless or against 1..8 (thorough: ..24) freshly started server processes; 1..12 (sometimes 99..130) files per server with 0..5000 lines (sometimes 3000..12000 groups for a large result), MaxConcurrentCats in {1,2,8,200}; one glob command or one command per file; 0-2 hook-placed delays (aggregator close/requeue, registration, limiter, merge, command loop) and 0/2/4 CPU hogs per shard, GOMAXPROCS default/1/2 for client and servers; 3 fixed query shapes or a grammar-generated query (select/where/set/group/order/limit as in C05). Oracle: exit 0 within 120 s and the CSV outfile equals the central evaluation by the reference model over all lines of all files. clean-schedule-space: hook await actions remove the known defect (server cannot know that more files / commands follow), every failure is a violation; free-schedule-space: a failure is accepted only when the hook trace shows that defect's signature. Non-trivial = >=2 files on a server or >=2 servers",
 		Gen: genE2E, Eval: evalE2E, SampleOf: sampleE2E})
 }
 
